@@ -24,12 +24,18 @@ PROP = "C12"
 RUN = "Run_C12"
 THEOREMS = "Props/C12.v"
 ANCHORS = [
-    ("pipefunc/_pipeline/_validation.py", ["validate_unique_output_names", "validate_consistent_defaults", "validate_scopes"]),
+    ("pipefunc/_pipeline/_validation.py", ["validate_unique_output_names", "validate_unique_outputs",
+                                           "validate_consistent_defaults", "validate_scopes"]),
     ("pipefunc/_pipefunc.py", ["PipeFunc.__init__", "PipeFunc._validate", "PipeFunc._validate_names",
-                               "PipeFunc._validate_mapspec", "PipeFunc._validate_update", "PipeFunc.defaults"]),
+                               "PipeFunc._validate_mapspec", "PipeFunc._validate_update", "PipeFunc.defaults",
+                               "PipeFunc.update_defaults", "PipeFunc.update_bound", "PipeFunc.update_renames",
+                               "PipeFunc._clear_internal_cache"]),
     ("pipefunc/_pipeline/_base.py", ["Pipeline.__init__", "Pipeline.add", "Pipeline._validate", "Pipeline._validate_mapspec",
                                      "Pipeline.topological_generations", "Pipeline.graph", "Pipeline.defaults",
-                                     "Pipeline._autogen_mapspec_axes"]),
+                                     "Pipeline._autogen_mapspec_axes", "Pipeline.output_to_func", "Pipeline.drop",
+                                     "Pipeline.replace", "Pipeline.update_defaults", "Pipeline.update_renames",
+                                     "Pipeline.run", "Pipeline.mapspec_names", "Pipeline.mapspecs",
+                                     "Pipeline.sorted_functions"]),
     ("pipefunc/map/_prepare.py", ["prepare_run", "_validate_complete_inputs", "_validate_fixed_indices", "_check_parallel"]),
     ("pipefunc/map/_run_info.py", ["RunInfo.create", "RunInfo.__post_init__", "RunInfo.init_store", "RunInfo.storage_class",
                                    "RunInfo.load", "_storage_class", "_validate_storage", "_check_inputs",
@@ -51,10 +57,19 @@ RULE = ("every valid pipeline of harness/pipegen.py and every valid map request 
         "executor with parallel=False, MapSpec replaced after construction) x run folder mode (fresh, pre-existing from a "
         "valid run with cleanup=False, pre-existing with cleanup=True); plus the prepare_run step order regenerated from "
         "the source (2 paths) and the dynamic validation of the translator's classification table on valid requests; "
+        "plus MUTATE-THEN-USE: each valid pipegen pipeline (then pipeline(o, **root_args)) and valid mapgen request (then "
+        "map on the folder of a previous valid run, cleanup=False; also with equal explicit defaults on shared scalar "
+        "roots) after ONE call of pipeline.functions[j].update_defaults / update_bound / update_renames or "
+        "pipeline.update_defaults / update_renames / add / replace (default changed on one member / on all, bind, unbind, "
+        "output renamed onto another output / onto an own parameter, root parameter renamed onto a descendant's output, "
+        "two differently defaulted parameters renamed together, fresh names, unknown keys, add / replace of valid and "
+        "ill-formed functions), observing where the exception is raised and the pipeline state after the mutation; "
         "plus pipeline(output, **root_args) on the pipegen pipelines: complete, each keyword dropped, a surplus keyword "
         "(fresh name / another root argument); "
         "non-trivial = a mutated case or a base with >= 2 functions; distinct by (kind, description, mode)")
-ASSUMPTIONS = ["pipeline(...) level: Model/Pipe.v (C02) is the model of Pipeline.run; missing/surplus keywords are judged "
+ASSUMPTIONS = ["mutate-then-use: update_from='current', overwrite only for update_bound, no update_scope / drop; renames that "
+               "make two parameters of one function equal are not generated",
+               "pipeline(...) level: Model/Pipe.v (C02) is the model of Pipeline.run; missing/surplus keywords are judged "
                "with C02's specification (Pipe.eval fails / keyword names no parameter of a needed function)",
                "a run folder is always passed to map; parallel=False (except the executor fault); show_progress=False",
                "un-scoped names, no resources, no type annotations (C16), no output_names/auto_subpipeline/fixed_indices",
@@ -307,17 +322,9 @@ def existing_folder(funcs, prev):
     return d
 
 
-def do_map(c, d, log):
-    """Build the pipeline of case c and call map on folder d.  Returns ('accepted',) or ('rejected', class)."""
-    from pipefunc.map import MapSpec
-
+def map_call(pl, c, d):
+    """Call map of case c on folder d.  Returns ('accepted',) or ('rejected', class)."""
     _Prep.install()
-    pl, bad = construct(c["funcs"], log)
-    if bad is not None:
-        return ("bad-case", bad)
-    if c.get("late"):
-        j, sp = c["late"]
-        pl.functions[j].mapspec = MapSpec.from_string(mapsym.spec_str(sp))
     ex = None
     if c.get("executor"):
         from concurrent.futures import ThreadPoolExecutor
@@ -336,6 +343,87 @@ def do_map(c, d, log):
     finally:
         if ex is not None:
             ex.shutdown(wait=True)
+
+
+def do_map(c, d, log):
+    """Build the pipeline of case c and call map on folder d.  Returns ('accepted',) or ('rejected', class)."""
+    from pipefunc.map import MapSpec
+
+    pl, bad = construct(c["funcs"], log)
+    if bad is not None:
+        return ("bad-case", bad)
+    if c.get("late"):
+        j, sp = c["late"]
+        pl.functions[j].mapspec = MapSpec.from_string(mapsym.spec_str(sp))
+    return map_call(pl, c, d)
+
+
+# ---------------------------------------------------------------------------------------- mutate-then-use
+def apply_mutation_real(pl, mu, log):
+    op = mu["op"]
+    if op == "MDefaults":
+        pl.functions[mu["j"]].update_defaults(dict(mu["d"]))
+    elif op == "MBound":
+        pl.functions[mu["j"]].update_bound(dict(mu["b"]), overwrite=bool(mu["ow"]))
+    elif op == "MRename":
+        pl.functions[mu["j"]].update_renames(dict(mu["ren"]))
+    elif op == "PDefaults":
+        pl.update_defaults(dict(mu["d"]))
+    elif op == "PRename":
+        pl.update_renames(dict(mu["ren"]))
+    elif op == "PAdd":
+        pl.add(build_pf(mu["f"], log))
+    elif op == "PReplace":
+        pl.replace(build_pf(mu["f"], log))
+    else:
+        raise ValueError(op)
+
+
+def pipeline_state(pl):
+    from pipefunc._utils import at_least_tuple
+
+    out = []
+    for f in pl.functions:
+        out.append([[list(at_least_tuple(f.output_name)), list(f.parameters)],
+                    [[k, mapsym.canon(v)] for k, v in f.defaults.items()],
+                    [[k, mapsym.canon(v)] for k, v in sorted(f.bound.items())],
+                    str(f.mapspec) if f.mapspec is not None else ""])
+    return out
+
+
+def run_mutate(c):
+    from pipefunc._utils import at_least_tuple
+
+    log = []
+    with contextlib.redirect_stdout(io.StringIO()), contextlib.redirect_stderr(io.StringIO()):
+        import warnings
+
+        with warnings.catch_warnings():
+            warnings.simplefilter("ignore")
+            d = existing_folder(c["funcs"], c["prev"]) if c["use"] == "map" else None
+            before = snapshot(d) if d else None
+            pl, bad = construct(c["funcs"], log)
+            if bad is not None:
+                return ["bad-case", bad]
+            try:
+                apply_mutation_real(pl, c["mu"], log)
+            except AssertionError:
+                raise
+            except Exception as e:  # noqa: BLE001
+                return ["mutation", err_class(e), len(log), 0 if (d is None or snapshot(d) == before) else 1]
+            state = pipeline_state(pl)
+            if c["use"] == "run":
+                try:
+                    o = at_least_tuple(pl.functions[-1].output_name)[0]
+                    ra = pl.root_args(o)
+                    pl(o, **{n: "v_" + n for n in ra})
+                    return ["never", state]
+                except Exception as e:  # noqa: BLE001
+                    return ["use", err_class(e), len(log), 0, state]
+            r = map_call(pl, c, d)
+            if r[0] == "accepted":
+                return ["never", state]
+            return ["use", r[1], len(log), 0 if snapshot(d) == before else 1, state]
 
 
 def run_map(c):
@@ -556,6 +644,8 @@ def run_impl(c):
         return run_classify(c)
     if k == "call":
         return run_call(c)
+    if k == "mutate":
+        return run_mutate(c)
     raise ValueError(k)
 
 
@@ -652,6 +742,25 @@ def map_lit(c):
         cbool(bool(c["cleanup"])), prev)
 
 
+def mutation_lit(mu):
+    op = mu["op"]
+    if op == "MDefaults":
+        return f"(MDefaults {cnat(mu['j'])} {_alist(mu['d'])})"
+    if op == "MBound":
+        return f"(MBound {cnat(mu['j'])} {_alist(mu['b'])} {cbool(bool(mu['ow']))})"
+    if op == "MRename":
+        return f"(MRename {cnat(mu['j'])} {_alist(mu['ren'])})"
+    if op == "PDefaults":
+        return f"(PDefaults {_alist(mu['d'])})"
+    if op == "PRename":
+        return f"(PRename {_alist(mu['ren'])})"
+    if op == "PAdd":
+        return f"(PAdd {func_lit(mu['f'])})"
+    if op == "PReplace":
+        return f"(PReplace {func_lit(mu['f'])})"
+    raise ValueError(op)
+
+
 def emit_case(c) -> str:
     k = c["kind"]
     if k == "construct":
@@ -662,6 +771,9 @@ def emit_case(c) -> str:
         return f"(CPrepOrder {cbool(c['cleanup'])})"
     if k == "classify":
         return f"(CClassify {cnat(c['tag'])})"
+    if k == "mutate":
+        use = f"(URun {funcs_lit(c['funcs'])})" if c["use"] == "run" else f"(UMap {map_lit(c)})"
+        return f"(CMutate {mutation_lit(c['mu'])} {use})"
     if k == "call":
         return (f"(CCall {clist([pipe_func_lit(f) for f in c['p']['funcs']])} {cstr(c['o'])} "
                 f"{pipegen.alist_lit(c['kw'])} {cbool(bool(c.get('claimed')))})")
@@ -856,6 +968,107 @@ def map_mutants(F, req):
     return out
 
 
+def _new_func(name, outs, params):
+    return {"name": name, "outs": list(outs), "params": [[p, p] for p in params], "sigd": {}, "defs": {}, "bound": {},
+            "spec": None, "int": []}
+
+
+def mutations_for(F, rng, cap):
+    """[(tag, mutation)] - ONE call of the PipeFunc / Pipeline API on the valid pipeline F (some make it ill-formed)."""
+    out = []
+    n = len(F)
+    outs_all = {o for f in F for o in f["outs"]}
+    pairs = [(i, j) for i in range(n) for j in range(n) if i != j]
+    if len(pairs) > cap:
+        pairs = rng.sample(pairs, cap)
+    anc = _ancestors(F)
+
+    def free_root(f, k):
+        return k not in outs_all and k not in f["bound"]
+
+    for i, j in pairs:
+        di = dict(fdefaults(F[i]))
+        dj = dict(fdefaults(F[j]))
+        for k in di:                                             # default changed on ONE member / on the pipeline
+            if k in cur_names(F[j]) and free_root(F[i], k) and free_root(F[j], k):
+                out.append(("m_defaults_inconsistent", {"op": "MDefaults", "j": j, "d": [[k, "X_" + k]]}))
+                out.append(("m_defaults_same", {"op": "MDefaults", "j": j, "d": [[k, di[k]]]}))
+                out.append(("p_defaults", {"op": "PDefaults", "d": [[k, "X_" + k]]}))
+                G = _dc(F[j])
+                G["defs"][k] = "X_" + k
+                out.append(("p_replace_inconsistent", {"op": "PReplace", "f": G}))
+                if F[j]["bound"] == {} and k in dj:
+                    out.append(("m_bind_shared", {"op": "MBound", "j": j, "b": [[k, "B_" + k]], "ow": False}))
+        oi, oj = F[i]["outs"][-1], F[j]["outs"][0]               # an output renamed onto another function's output
+        out.append(("m_rename_out_dup", {"op": "MRename", "j": j, "ren": [[oj, oi]]}))
+        out.append(("p_rename_out_dup", {"op": "PRename", "ren": [[oj, oi]]}))
+        if anc[i][j]:                                            # a root parameter renamed onto a descendant's output
+            for p_ in cur_names(F[i]):
+                if free_root(F[i], p_) and oj not in cur_names(F[i]):
+                    out.append(("m_rename_cycle", {"op": "MRename", "j": i, "ren": [[p_, oj]]}))
+                    out.append(("p_rename_cycle", {"op": "PRename", "ren": [[p_, oj]]}))
+                    break
+        for d_ in dj:                                            # two differently defaulted parameters made to meet
+            for b_ in di:
+                if (b_ != d_ and free_root(F[j], d_) and free_root(F[i], b_) and b_ not in cur_names(F[j])
+                        and b_ not in F[j]["outs"] and str(di[b_]) != str(dj[d_])):
+                    out.append(("m_rename_defaults_meet", {"op": "MRename", "j": j, "ren": [[d_, b_]]}))
+                    out.append(("p_rename_defaults_meet", {"op": "PRename", "ren": [[d_, b_]]}))
+    for j in range(n):
+        ps = cur_names(F[j])
+        if ps:                                                   # an output renamed onto an own parameter
+            out.append(("m_rename_out_own_param", {"op": "MRename", "j": j, "ren": [[F[j]["outs"][0], ps[0]]]}))
+            out.append(("m_rename_fresh", {"op": "MRename", "j": j, "ren": [[ps[-1], "fresh_q"]]}))
+            free = [k for k in ps if k not in F[j]["bound"] and k not in F[j]["defs"]
+                    and not (F[j].get("spec") and any(k == a for a, _ in F[j]["spec"]["i"]))]
+            if free:
+                out.append(("m_bind", {"op": "MBound", "j": j, "b": [[free[0], "B_" + free[0]]], "ow": False}))
+        if F[j]["bound"]:
+            out.append(("m_unbind", {"op": "MBound", "j": j, "b": [], "ow": True}))
+        if j == 0:
+            out.append(("m_defaults_unknown_key", {"op": "MDefaults", "j": j, "d": [["nokey", "v"]]}))
+            out.append(("m_rename_unknown_key", {"op": "MRename", "j": j, "ren": [["nokey", "other"]]}))
+            out.append(("p_replace_same", {"op": "PReplace", "f": _dc(F[j])}))
+    roots = [k for f in F for k in cur_names(f) if free_root(f, k)]
+    if roots:
+        out.append(("p_rename_fresh", {"op": "PRename", "ren": [[roots[0], "fresh_r"]]}))
+    out.append(("p_defaults_unused", {"op": "PDefaults", "d": [["nokey", "v"]]}))
+    out.append(("p_rename_unused", {"op": "PRename", "ren": [["nokey", "other"]]}))
+    out.append(("p_add_dup", {"op": "PAdd", "f": _new_func("fnew", [F[0]["outs"][0]], ["znew"])}))
+    out.append(("p_add_valid", {"op": "PAdd", "f": _new_func("fnew", ["onew"], [F[-1]["outs"][0]])}))
+    out.append(("p_add_out_eq_param", {"op": "PAdd", "f": _new_func("fnew", ["onew"], ["onew"])}))
+    out.append(("p_replace_missing", {"op": "PReplace", "f": _new_func("fnew", ["onew"], ["znew"])}))
+
+    def rename_keeps_params_distinct(mu):
+        # a rename that makes two parameters of one function equal is outside the model (Python itself forbids it
+        # for a signature; pipefunc reports it through its one-to-one check)
+        if mu["op"] not in ("MRename", "PRename"):
+            return True
+        ren = dict(mu["ren"])
+        fs = [F[mu["j"]]] if mu["op"] == "MRename" else F
+        for f in fs:
+            ps = [ren.get(k, k) for k in cur_names(f)]
+            if len(set(ps)) != len(ps):
+                return False
+        return True
+
+    return [(t, m) for t, m in out if rename_keeps_params_distinct(m)]
+
+
+def with_shared_defaults(F, req):
+    """The same valid request, with an (equal) explicit default on every scalar root shared by >= 2 functions."""
+    scal = [k for k, v in req["inputs"] if isinstance(v, str)]
+    G = _dc(F)
+    changed = False
+    for k in scal:
+        users = [f for f in G if k in cur_names(f) and k not in f["bound"]]
+        if len(users) >= 2:
+            for f in users:
+                f["defs"][k] = "D_" + k
+            changed = True
+    return G if changed else None
+
+
 # ====================================================================================== generator
 def _map_case(F, req, over, mode, tag, registry, claimed=False):
     c = {"kind": "map", "funcs": F, "inputs": req["inputs"], "internal": req["internal"], "storage": req["storage"],
@@ -917,6 +1130,7 @@ def generate(rng, tier, mult):
     n_mapc = (12 if quick else 200) * mult
     n_req = (22 if quick else 270) * mult
     n_cls = (6 if quick else 40) * mult
+    n_mut = (10 if quick else 120) * mult
     cap = 6 if quick else 12
     # construction level: pipelines of pipegen
     for _ in range(n_pipe):
@@ -931,6 +1145,9 @@ def generate(rng, tier, mult):
         for tag, G in construct_mutants(F, rng, cap):
             cases.append({"kind": "construct", "funcs": G, "tag": tag, "src": "pipegen", "claimed": False})
         cases += call_cases(rng, pd)
+        if quick or _ % 2 == 0:
+            for tag, mu in mutations_for(F, rng, cap):
+                cases.append({"kind": "mutate", "use": "run", "funcs": F, "mu": mu, "tag": tag})
     # construction level: map pipelines of mapgen (MapSpec faults)
     for _ in range(n_mapc):
         F, _req = base_request(rng)
@@ -948,6 +1165,14 @@ def generate(rng, tier, mult):
                 cases.append(_map_case(F, req, over, mode, tag, registry))
             if rng.random() < 0.25:
                 cases.append(_map_case(F, req, over, "cleanup", tag, registry))
+        if b < n_mut:
+            for G in (F, with_shared_defaults(F, req)):
+                if G is None:
+                    continue
+                for tag, mu in mutations_for(G, rng, cap):
+                    c = _map_case(G, req, {}, "existing", tag, registry)
+                    c.update(kind="mutate", use="map", mu=mu)
+                    cases.append(c)
         if b < n_cls:
             for mode in (("existing", "fresh", "cleanup") if b % 2 == 0 else ("existing",)):
                 cases.append({"kind": "classify", "tag": len(cases), "req": _map_case(F, req, {}, mode, "valid", registry)})
@@ -977,6 +1202,9 @@ def distribution(c):
     elif c["kind"] == "call":
         d["fault"] = "call:" + c["tag"]
         d["nfuncs"] = len(c["p"]["funcs"])
+    elif c["kind"] == "mutate":
+        d["fault"] = "mutate-" + c["use"] + ":" + c["tag"]
+        d["nfuncs"] = len(c["funcs"])
     return d
 
 
@@ -986,6 +1214,8 @@ def finding_id(c, impl_obs, kind):
         return f"prepare_order:cleanup={c['cleanup']}"
     if c["kind"] == "classify":
         return "classification_table"
+    if c["kind"] == "mutate":
+        return f"mutate-{c['use']}:{c.get('tag')}"
     if c["kind"] == "call":
         # known findings: Pipeline.run discovers a missing / surplus keyword only while / after running user functions
         if isinstance(impl_obs, list) and len(impl_obs) == 3 and impl_obs[0] == "rejected" and impl_obs[2] > 0:
@@ -1010,6 +1240,8 @@ def shrink(c):
             d = dict(c)
             d["kw"] = c["kw"][:j] + c["kw"][j + 1:]
             out.append(d)
+        return out
+    if c["kind"] == "mutate":
         return out
     if c["kind"] == "map":
         fs = c["funcs"]
